@@ -418,12 +418,18 @@ def _split_two_literals(s):
 
 
 def check_overlapping_memcpy(chk):
+    """R11.12.  Candidates are found on the AST (a memcpy whose two pointer arguments both point into a memory's data); each candidate
+    function is then evaluated on a family of concrete operands (both memories the same or different, addresses and counts that overlap
+    in both directions, touch, coincide or are disjoint) with a memcpy model that reports overlapping ranges: a memcpy that is only
+    reached for disjoint ranges (a guarded fast path) is fine"""
+    import itertools
     htu = runtime.header('le')
     n = 0
     for name, f in sorted(htu.functions.items()):
         body = astdb.fn_body(f)
         if body is None or not (astdb.file_of(f) or '').endswith('w2c2_base.h'):
             continue
+        cands = []
         for c in walk(body):
             if c.get('kind') != 'CallExpr' or astdb.callee_name(c) not in ('memcpy', '__builtin_memcpy', '__builtin___memcpy_chk'):
                 continue
@@ -435,13 +441,71 @@ def check_overlapping_memcpy(chk):
             def in_memory(e):
                 return any(x.get('kind') == 'MemberExpr' and x.get('name') == 'data' and 'wasmMemory' in htu.desugar(astdb.qtype(kids(x)[0]))
                            for x in walk(e))
-            both = in_memory(args[0]) and in_memory(args[1])
-            chk.expect(not both, 'R11.12', '%s:memcpy@%s' % (name, (astdb.loc_str(c) or '').split(':')[-1]),
-                       '%s copies from linear memory to linear memory with memcpy (%s): the module chooses both ranges and they may overlap '
-                       '(memory.copy must handle that) - memcpy on overlapping objects is undefined behaviour, an overlap-safe copy (memmove) is needed'
-                       % (name, astdb.expr_text(c)[:120]), 'runtime/%s:memcpy' % name, astdb.loc_str(c))
+            if in_memory(args[0]) and in_memory(args[1]):
+                cands.append(c)
+        if not cands:
+            continue
+        params = astdb.fn_params(f)
+        mems = [i for i, p_ in enumerate(params) if 'wasmMemory' in htu.desugar(astdb.qtype(p_))]
+        ints = [i for i, p_ in enumerate(params) if ct.tinfo(htu.desugar(astdb.qtype(p_)))[0] == 'int']
+        if len(mems) + len(ints) != len(params) or not mems or len(ints) > 4:
+            raise AnalysisBroken('%s copies linear memory to linear memory with memcpy and has a parameter list the concrete family does not cover' % name)
+        witness = []
+
+        def mcpy(interp, args, node):
+            d, s_, k = args[0], args[1], args[2]
+            if not (isinstance(d, Ptr) and isinstance(s_, Ptr) and isinstance(k, int)):
+                raise pe.PEError('memcpy with symbolic operands')
+            if d.c is s_.c and k > 0 and max(d.k, s_.k) < min(d.k + k, s_.k + k):
+                witness.append((d.k, s_.k, k))
+            src = [interp.load(s_.c, s_.k + i) for i in range(k)]
+            for i in range(k):
+                interp.store(d.c, d.k + i, src[i])
+            return d
+
+        def mmove(interp, args, node):
+            d, s_, k = args[0], args[1], args[2]
+            src = [interp.load(s_.c, s_.k + i) for i in range(k)]
+            for i in range(k):
+                interp.store(d.c, d.k + i, src[i])
+            return d
+        leafs = {'memcpy': mcpy, '__builtin_memcpy': mcpy, '__builtin___memcpy_chk': mcpy, 'memmove': mmove, '__builtin_memmove': mmove}
+        runs = 0
+        found = None
+        for same in (True, False):
+            for vals in itertools.product((0, 1, 3, 4, 8, 9), repeat=len(ints)):
+                a = [(7 * i + 3) & 0xFF for i in range(40)]
+                b = a if same else [(11 * i + 5) & 0xFF for i in range(40)]
+                it2 = pe.Interp([htu], leafs, max_paths=64)
+                it2.cur_tu = htu
+
+                def rec(bytes_):
+                    r = it2.zero_init('struct wasmMemory')
+                    r['data'] = Ptr(bytes_, 0)
+                    r['size'] = 40
+                    return Ptr({'v': r}, 'v')
+                args = [None] * len(params)
+                for k_, i in enumerate(mems):
+                    args[i] = rec(a if k_ == 0 else b)
+                for k_, i in enumerate(ints):
+                    args[i] = vals[k_]
+                del witness[:]
+                try:
+                    it2.explore(lambda: (name, args, {}))
+                except pe.PEError as e:
+                    raise AnalysisBroken('%s on concrete operands %r: %s' % (name, vals, e))
+                runs += 1
+                if witness and found is None:
+                    found = (vals, same, witness[0])
+        c = cands[0]
+        chk.expect(found is None, 'R11.12', '%s:memcpy-overlap' % name,
+                   '%s%r (both memories %s) calls memcpy(data + %d, data + %d, %d) - overlapping ranges of the same memory (memory.copy must '
+                   'handle them): memcpy on overlapping objects is undefined behaviour, an overlap-safe copy (memmove) is needed'
+                   % ((name, found[0], 'the same' if found[1] else 'different') + found[2] if found else (name, (), '', 0, 0, 0)),
+                   'runtime/%s:memcpy' % name, astdb.loc_str(c),
+                   detail_ok='%d concrete operand tuples: memcpy is never reached with overlapping ranges' % runs)
     chk.require(n >= 4, 'only %d memcpy calls found in the runtime header' % n)
-    chk.ok('R11.12', 'memcpy-calls-scanned', '%d memcpy calls of the runtime header: none copies linear memory to linear memory' % n)
+    chk.ok('R11.12', 'memcpy-calls-scanned', '%d memcpy calls of the runtime header examined' % n)
 
 
 def run(chk):
